@@ -152,7 +152,7 @@ theorem InitFacts.flatRank {S : Static} {orc : Oracle} {n : Nat} {t0 : SimTime} 
 theorem nesting_transparent_initial_core (S : Static) (hS : S.Valid) (orc : Oracle) (fuel n : Nat)
     (hst : S.ResolveStable n) (t0 : SimTime) (now : Int)
     (m : MasterSt) (tr : TickRec) (h : masterInitial S orc fuel t0 now = .ok (m, tr)) :
-    ∃ fuel' m' tr', masterInitial (S.flatten n) orc fuel' t0 now = .ok (m', tr') ∧
+    ∃ m' tr', masterInitial (S.flatten n) orc 1 t0 now = .ok (m', tr') ∧
       ∀ d, ObsEq (m.sim.obsOf d) (m'.sim.obsOf d) := by
   have hf := masterInitial_facts hS hst h
   have hS' : (S.flatten n).Valid := hS.flatten hf.flatRank
@@ -174,7 +174,7 @@ theorem nesting_transparent_initial_core (S : Static) (hS : S.Valid) (orc : Orac
     rw [S.flatten_level]
     simp only [hr]
   have hf' := masterInitial_facts hS' hst' hmi
-  refine ⟨1, _, _, hmi, fun d => ?_⟩
+  refine ⟨_, _, hmi, fun d => ?_⟩
   show ObsEq (m.sim.obsOf d) (st'.obsOf d)
   have hdev' : ∀ x, (S.flatten n).isDevice x ↔ S.isDevice x := by
     intro x
@@ -200,5 +200,18 @@ theorem nesting_transparent_initial_core (S : Static) (hS : S.Valid) (orc : Orac
       exact hd ((hdev' _).1 (hf'.obs o ho).2.1)
     rw [SimSt.obsOf_of_not_mem h1, SimSt.obsOf_of_not_mem h2]
     trivial
+
+theorem masterInitial_clock {S : Static} {orc : Oracle} {fuel : Nat} {t0 : SimTime} {now : Int}
+    {m : MasterSt} {tr : TickRec} (h : masterInitial S orc fuel t0 now = .ok (m, tr)) :
+    m.tickerTime = t0 ∧ m.lastReal = now ∧ m.now = now ∧ tr.time = t0 ∧ tr.real = now := by
+  unfold masterInitial at h
+  split at h
+  · cases h
+  · simp only [] at h
+    split at h
+    · cases h
+    · simp only [Except.ok.injEq, Prod.mk.injEq] at h
+      obtain ⟨rfl, rfl⟩ := h
+      exact ⟨rfl, rfl, rfl, rfl, rfl⟩
 
 end Tickit
